@@ -32,24 +32,45 @@ class HT:
     def __repr__(self): return 'H%r' % (self.arg,)
 
 
+class Concretised(Exception):
+    """the hashing code pushed the symbolic token through a conversion that needs a concrete number (format, float, int)"""
+
+
+class TokStr(str):
+    """repr()/str() of a symbolic token: an INJECTIVE image of it (repr of a float/int/str round-trips)"""
+    def __new__(cls, text, term):
+        o = str.__new__(cls, text); o.term = term; return o
+
+
 class Tok:
-    """symbolic attribute value"""
-    def __init__(self, term): self.term = term
-    def __repr__(self): return 'Tok(%s)' % self.term
-    # behave inertly if the hashing code compares / formats it
+    """symbolic attribute value; numeric tokens are compared through CPython's numeric hash (hash(-1) == hash(-2) == -2)"""
+    def __init__(self, term, numeric=False): self.term = term; self.numeric = numeric
+    def __repr__(self): return TokStr('<tok %s>' % self.term, self.term)
+    __str__ = __repr__
     def __hash__(self): return id(self)
+    def __float__(self): raise Concretised('float() of the token')
+    def __int__(self): raise Concretised('int() of the token')
+    def __index__(self): raise Concretised('index of the token')
+    def __format__(self, spec): raise Concretised('format of the token')
+
+
+BIG = 2 ** 62
+
+
+def pyhash_term(t):
+    """CPython hash of an integral number |t| < 2^61 - 1 (ints and floats alike): the number itself, except hash(-1) = -2"""
+    return z3.If(t == -1, z3.IntVal(-2), t)
 
 
 class Ids:
-    """injective numbering of concrete leaf values"""
+    """numbering of concrete leaf values: integral numbers by their real CPython hash (so -1 and -2, 1 and 1.0 and True coincide,
+    as they do in a real dict key), everything else injectively in a disjoint range"""
     def __init__(self): self.d = {}
     def of(self, v):
+        if isinstance(v, (bool, int, float)) and float(v) == int(float(v)) and abs(float(v)) < 2 ** 60:
+            return z3.IntVal(hash(v))
         key = (type(v).__name__, repr(v)) if not isinstance(v, type) else ('type', v.__name__)
-        if isinstance(v, (bool,)): key = ('bool', repr(v))
-        elif isinstance(v, (int, float)) and not isinstance(v, bool):
-            key = ('num', repr(float(v))) if float(v) == v else key
-            # python: hash(1) == hash(1.0) and 1 == 1.0 -> same key
-        if key not in self.d: self.d[key] = len(self.d) + 1000
+        if key not in self.d: self.d[key] = BIG + len(self.d)
         return z3.IntVal(self.d[key])
 
 
@@ -66,9 +87,11 @@ def eq_formula(a, b, ids):
         if isinstance(a, Tok) or isinstance(b, Tok):
             return z3.BoolVal(False)       # a symbolic scalar token never equals a tuple
         return z3.BoolVal(False)
-    ta = a.term if isinstance(a, Tok) else ids.of(a)
-    tb = b.term if isinstance(b, Tok) else ids.of(b)
-    return ta == tb
+    def leaf(x):
+        if isinstance(x, Tok): return pyhash_term(x.term) if x.numeric else x.term
+        if isinstance(x, TokStr): return x.term + 3 * BIG        # injective image of the token, disjoint from every other leaf
+        return ids.of(x)
+    return leaf(a) == leaf(b)
 
 
 def load_vform_model(enc=None, transform=None):
@@ -111,8 +134,10 @@ def find_nodes(vf, V, cls, pred=lambda e: True):
 def templates(vf):
     T = []
 
-    def add(name, values, make, locate, on_demand=(False, False)):
-        T.append({'name': name, 'values': values, 'make': make, 'locate': locate, 'on_demand': on_demand})
+    def add(name, values, make, locate, on_demand=(False, False), numeric=None, domain=None):
+        if numeric is None: numeric = all(isinstance(v, (int, float)) and not isinstance(v, bool) for v in values)
+        T.append({'name': name, 'values': values, 'make': make, 'locate': locate, 'on_demand': on_demand, 'numeric': numeric,
+                  'domain': domain or ((lambda L: L >= 0) if numeric else (lambda L: z3.And(L >= BIG, L < 2 * BIG)))})
 
     def base(d=2, **kw):
         V = vf.VForm(d, **kw); u, v = V.basisfuns(); return V, u, v
@@ -134,7 +159,23 @@ def templates(vf):
     # constant
     def mk(tok, ctx):
         V, u, v = base(); V.add(vf.as_expr(tok) * u * _ctx_factor(vf, V, u, v, ctx) * v * vf.dx); return V
-    add('constant', [2.0, 3.0, 0.5], mk, lambda V: [(e, 'value', None) for e in find_nodes(vf, V, vf.ConstExpr) if e.value in (2.0, 3.0, 0.5)][:1])
+    CONSTS = [2.0, 3.0, 0.5, -1.0, -2.0, 2.5, 2.5000001, 1234567.0, 1234568.0]
+    add('constant', CONSTS, mk, lambda V: [(e, 'value', None) for e in find_nodes(vf, V, vf.ConstExpr) if e.value in CONSTS][:1],
+        numeric=True, domain=lambda L: z3.BoolVal(True))
+    # the same tokens inside a NESTED variable definition: only 'b' is referenced by the integrand, 'a' only by 'b'
+    def mk(tok, ctx):
+        V, u, v = base(); f = V.input('f'); a = V.let('a', f * vf.as_expr(tok)); b = V.let('b', a + 1); V.add(b * u * v * vf.dx); return V
+    add('constant in a nested definition', [2.0, 3.0, -1.0, -2.0], mk,
+        lambda V: [(e, 'value', None) for e in find_nodes(vf, V, vf.ConstExpr) if e.value in (2.0, 3.0, -1.0, -2.0)][:1], numeric=True, domain=lambda L: z3.BoolVal(True))
+    def mk(tok, ctx):
+        V, u, v = base(); f = V.input('f'); a = V.let('a', getattr(vf, tok)(f)); b = V.let('b', a * a); V.add(b * u * v * vf.dx); return V
+    add('function in a nested definition', ['sin', 'cos', 'exp'], mk, lambda V: [(e, 'funcname', None) for e in find_nodes(vf, V, vf.BuiltinFuncExpr)])
+    def mk(tok, ctx):
+        V, u, v = base(); c = V.parameter('c', shape=(tok,)); b = V.let('b', c[0] * 2); V.add(b * u * v * vf.dx); return V
+    add('parameter shape behind a definition', [2, 3], mk, lambda V: [(V.params[0], 'shape', 0)])
+    def mk(tok, ctx):
+        V, u, v = base(); f = V.input('f', shape=(tok,)); b = V.let('b', f[0] * 2); V.add(b * u * v * vf.dx); return V
+    add('input shape behind a definition', [2, 3], mk, lambda V: [(V.inputs[1], 'shape', 0)])
     # derivative multi-index and physical/parametric flag
     def mk(tok, ctx):
         V, u, v = base(); V.add(vf.Dx(u, tok, parametric=True) * v * _ctx_factor(vf, V, u, v, ctx) * V.GaussWeight); return V
@@ -221,7 +262,7 @@ def slot_query(tpl, vf, asm_cache_args, ctx):
     L, L2 = z3.Int('L'), z3.Int('Lprime')
     if slots == 'on_demand':
         k1 = (V.hash(), asm_cache_args(Tok(L))); k2 = (V.hash(), asm_cache_args(Tok(L2)))
-        s = z3.Solver(); s.add(L != L2, eq_formula(k1, k2, ids))
+        s = z3.Solver(); s.add(L != L2, tpl['domain'](L), tpl['domain'](L2), eq_formula(k1, k2, ids))
         return [('compile cache key / on_demand', str(s.check()))]
     if not slots:
         raise RuntimeError('template %s: token slot not found in the form' % tpl['name'])
@@ -232,13 +273,18 @@ def slot_query(tpl, vf, asm_cache_args, ctx):
                 setattr(obj, attr, tok)
             else:
                 lst = list(orig); lst[idx] = tok; setattr(obj, attr, tuple(lst))
+        desc = '%s.%s%s' % (type(obj).__name__, attr, '' if idx is None else '[%d]' % idx)
         try:
-            put(Tok(L)); k1 = form_key(V, False, asm_cache_args)
-            put(Tok(L2)); k2 = form_key(V, False, asm_cache_args)
+            put(Tok(L, tpl['numeric'])); k1 = form_key(V, False, asm_cache_args)
+            put(Tok(L2, tpl['numeric'])); k2 = form_key(V, False, asm_cache_args)
+        except Concretised as e:
+            # the key observes the token only through a concretising conversion: nothing can be said symbolically;
+            # decided by the ground truth on the admissible value pairs (reported as 'sat' = "may ignore part of the token")
+            out.append((desc + ' [concretised: %s]' % e, 'sat')); continue
         finally:
             setattr(obj, attr, orig); V._VForm__hash = None
-        s = z3.Solver(); s.add(L != L2, eq_formula(k1, k2, ids))
-        out.append(('%s.%s%s' % (type(obj).__name__, attr, '' if idx is None else '[%d]' % idx), str(s.check())))
+        s = z3.Solver(); s.add(L != L2, tpl['domain'](L), tpl['domain'](L2), eq_formula(k1, k2, ids))
+        out.append((desc, str(s.check())))
     return out
 
 
